@@ -20,6 +20,8 @@ def transform_system(system, spec):
         q = q * np.sign(np.diag(r))
         if np.linalg.det(q) < 0:
             q[:, 0] = -q[:, 0]
+        if spec.get('translate_only'):
+            q = np.eye(3)
         t = np.array([rnd.uniform(-5, 5) for _ in range(3)])
         for mol in system.molecules:
             for n in mol.nodes:
